@@ -27,7 +27,9 @@ import fam_parsesig
 
 ID = "C12"
 COQ_PROP = "C12"
-FAMILIES = [(fam_merge, 2500, 30000), (fam_parsesig, 1500, 15000)]
+import fam_emitast  # noqa: E402  (emitters must leave their input IR alone: `how many conversions ran earlier` includes conversions of the same IR)
+
+FAMILIES = [(fam_merge, 2500, 30000), (fam_parsesig, 1500, 15000), (fam_emitast, 1200, 12000)]
 TECHNIQUE = ("Coq proof (ir_merge, _join_non_none, parse.function and _merge_inner_function give the same result for "
              "every admissible iteration order of every set they iterate; unbounded in the number of parameters) "
              "+ differential correspondence of Merge.v/ParseSig.v (each case is asked under sorted, reversed and "
@@ -215,6 +217,81 @@ def classify(case):
         return None
 
 
+REPEAT_SCRIPT = r"""
+import ast, json, sys
+try:
+    import meta
+except Exception:
+    pass
+from doctrans import parse, emit
+from doctrans.source_transformer import to_code
+srcs = json.load(sys.stdin)
+out = []
+for rounds in range(int(sys.argv[1])):
+    for src in srcs:
+        fd = ast.parse(src).body[0]
+        try:
+            ir = parse.function(fd)
+            res = [emit.docstring(ir, docstring_format=f) for f in ("rest", "numpydoc", "google")]
+            res.append(to_code(emit.function(ir, function_name=fd.name, function_type=None)))
+            res.append(to_code(emit.class_(ir)))
+            res.append(to_code(emit.argparse_function(ir)))
+            res.append(repr(ir.get("doc")))
+        except Exception as e:
+            res = ["EXC " + type(e).__name__]
+        out.append(res)
+json.dump(out, sys.stdout)
+"""
+
+AFTERWARD_DOCS = [
+    'Summary of {n}.\n\n    Args:\n      {a} (int): the {a}. Defaults to 5\n      {b} (str): the {b}.\n\n    Reference:\n      - See the paper\n      - And the blog\n\n    Usage:\n      call it twice\n',
+    'Summary of {n}.\n\n    Args:\n      {a} (float): rate of {a}.\n\n    Returns:\n      int: the result.\n\n    Raises:\n      ValueError: never\n',
+    'Summary of {n}.\n\n    Parameters\n    ----------\n    {a} : int\n        the {a}. Defaults to 3\n    {b} : str\n        the {b}.\n\n    Returns\n    -------\n    int\n        the result.\n\n    Notes\n    -----\n    Some notes that follow.\n',
+    'Summary of {n}.\n\n    :param {a}: the {a}. Defaults to 2\n    :type {a}: ```int```\n\n    :param {b}: the {b}.\n    :type {b}: ```str```\n',
+]
+
+
+def repeat_oracle(rng, n):
+    """the same source converted several times in ONE process must give the same output every time, and the same as
+    in a fresh process (no state may survive a conversion: caches, function attributes, mutated scanner results)"""
+    srcs = []
+    for i in range(n):
+        a, b = rng.sample(["alpha", "beta", "gamma", "lr", "name", "count"], 2)
+        doc = rng.choice(AFTERWARD_DOCS).format(n="f%d" % i, a=a, b=b)
+        srcs.append('def f%d(%s, %s="x"):\n    """\n    %s    """\n    return %s\n' % (i, a, b, doc, a))
+    env = dict(os.environ, PYTHONPATH=REPO, PYTHONHASHSEED="0")
+    env.pop("DOCTRANS_LINE_LENGTH", None)
+
+    def run(rounds, subset):
+        p = subprocess.run([VENV_PY, "-c", REPEAT_SCRIPT, str(rounds)], input=json.dumps(subset).encode(), env=env,
+                           stdout=subprocess.PIPE, stderr=subprocess.PIPE, timeout=600)
+        if p.returncode != 0:
+            return None, p.stderr.decode()[-400:]
+        return json.loads(p.stdout.decode()), ""
+    failures = []
+    rep, err = run(3, srcs)
+    if rep is None:
+        return [{"case": {"kind": "repeat", "src": srcs[0]}, "what": "conversion script failed: " + err, "class": None}], 0
+    k = len(srcs)
+    for i, src in enumerate(srcs):
+        first = rep[i]
+        for r in (1, 2):
+            if rep[r * k + i] != first:
+                j = next(x for x in range(len(first)) if x >= len(rep[r * k + i]) or rep[r * k + i][x] != first[x])
+                failures.append({"case": {"kind": "repeat", "src": src, "round": r},
+                                 "what": "conversion number %d of the same source in one process differs from the first (output %d): %r vs %r" % (
+                                     r + 1, j, first[j][:160], (rep[r * k + i][j] if j < len(rep[r * k + i]) else None) and rep[r * k + i][j][:160]),
+                                 "class": None})
+                break
+    # fresh single-process reference for a sample
+    for i in rng.sample(range(k), min(6, k)):
+        one, err = run(1, [srcs[i]])
+        if one is not None and one[0] != rep[i]:
+            failures.append({"case": {"kind": "repeat", "src": srcs[i], "round": "fresh"},
+                             "what": "conversion in a fresh process differs from the first conversion in a long-lived process", "class": None})
+    return failures, 3 * k + 6
+
+
 def oracle(rng, tier):
     if tier == "quick":
         n, seeds, shuffles, nsingle = 400, list(range(16)), [1, 2, 3, 4], 8
@@ -249,6 +326,9 @@ def oracle(rng, tier):
     hist["runs:shuffled-orders"] = len(shuffles)
     hist["runs:fresh-single"] = len(singles)
     hist["differing-outputs-before-dedup"] = len(failures)
+    rfails, revals = repeat_oracle(rng, 24 if tier == "quick" else 200)
+    short += rfails
+    hist["repeat-in-process-conversions"] = revals
     return {
         "evaluations": runs * len(pts) - len(singles) * (len(pts) - 1),
         "distinct_nontrivial": len(set(p["src"] for p in pts if len(p["tags"]) >= 2)),
